@@ -51,6 +51,15 @@ class TheCheck(TreeCheck):
             ops += ["new 0"] + ["put %s 76" % hexs(b"w%02d" % i) for i in (10, 5, 20, 15, 30)] + ["walk"]
             ops += ["put %s 77" % hexs(b"w%02d" % i) for i in (7, 12, 17, 25, 3)]
             ops += ["cursor0", "next"] * k + ["walk"]
+        # every insertion order of 3 keys, split at every point by a complete walk, followed by k
+        # one-step walks and a complete walk: a key inserted after the first walk may be rotated
+        # ABOVE nodes that still carry that walk's stamp when the counter wraps
+        import itertools
+        for perm in itertools.permutations([b"05", b"07", b"10"]):
+            for split in (1, 2):
+                for k in (252, 253, 254):
+                    ops += ["new 0"] + ["put %s 76" % hexs(x) for x in perm[:split]] + ["walk"]
+                    ops += ["put %s 77" % hexs(x) for x in perm[split:]] + ["cursor0", "next"] * k + ["walk"]
         sts.append(Stream("wrap-probes", ops, history=True))
         sts.append(Stream("random", self.random_history(700 if not big else 8000, 30 if not big else 300, 0,
                                                         ops=("put", "put", "rm", "walk", "abandon", "fullnext", "near"), quiet=False if not big else True), history=True))
